@@ -112,6 +112,33 @@ SITES = {
                # touching less 1 ulp
                extra=[TOUCH - 2 * R2 * 0.125, TOUCH, TOUCH_M]),
 }
+
+
+def _site(guess, lo, hi, sd, far, blo=None):
+    return dict(guess=guess, U=(lo, hi), G=(guess, sd),
+                B=(guess, sd, lo if blo is None else blo, hi), far=far)
+
+
+# "wide": every leaf of two spheres + the scaling is a parameter (11
+# parameters: two-digit placeholder indices); "tie3": three spheres whose
+# separately defined, equal index priors are tied with add_tie
+SITES.update({
+    "wn1": _site(1.59, 1.4, 1.7, 0.05, 2.5),
+    "wr1": _site(0.5, 0.3, 0.8, 0.1, -0.1, blo=-0.25),
+    "wx1": _site(0.0625, -0.5, 0.5, 0.2, 2.0),
+    "wy1": _site(0.1, -0.5, 0.5, 0.2, 2.0),
+    "wz1": _site(5.0, 4.0, 6.0, 0.5, 9.0),
+    "wn2": _site(1.45, 1.36, 1.5, 0.03, 2.5),
+    "wr2": _site(0.25, 0.125, 0.375, 0.05, -0.1, blo=-0.25),
+    "wx2": _site(1.5, 1.375, 3.0, 0.3, 5.0),
+    "wy2": _site(0.15, -0.5, 0.5, 0.2, 2.0),
+    "wz2": _site(5.25, 4.0, 6.0, 0.5, 9.0),
+    "tn": _site(1.59, 1.4, 1.7, 0.05, 2.5),
+    "tr1": _site(0.5, 0.3, 0.8, 0.1, -0.1, blo=-0.25),
+    "tr2": _site(0.4375, 0.3, 0.8, 0.1, -0.1, blo=-0.25),
+    "tr3": _site(0.5625, 0.3, 0.8, 0.1, -0.1, blo=-0.25),
+})
+RADIUS_SITES = ("r", "r1", "wr1", "wr2", "tr1", "tr2", "tr3")
 VAL_NAMES_UB = ["guess", "lower", "upper", "lower-1ulp", "upper+1ulp",
                 "interior", "far"]
 VAL_NAMES_G = ["guess", "mu-2sd", "mu+2sd", "interior", "far"]
@@ -147,7 +174,17 @@ KIND_SITES = {
     "lens": ["n", "lens_angle", "alpha"],
     "exact-lens": ["n", "lens_angle", "z"],
     "medium": ["n", "r", "medium_index", "alpha"],
+    # dedicated cases only (not part of the configuration axes):
+    "norad": ["n", "r", "z", "alpha"],       # Mie with non-default options
+    "exact-norad": ["n", "r", "z", "x"],
+    "wide": ["wn1", "wr1", "wx1", "wy1", "wz1", "wn2", "wr2", "wx2", "wy2",
+             "wz2", "alpha"],
+    "tie3": ["tn", "tr1", "tr2", "tr3", "alpha"],
+    "tie3-rev": ["tn", "tr1", "tr2", "tr3", "alpha"],
+    "tie2of3": ["tn", "tr1", "tr2", "tr3", "alpha"],
 }
+EXTRA_KINDS = ["norad", "exact-norad", "wide", "tie3", "tie3-rev", "tie2of3"]
+TIE3_CENTERS = [(0.0, 0.1, 5.0), (1.5, 0.1, 5.0), (0.25, 1.625, 5.5)]
 FRACTION = {"two-0.1": 0.1, "two-0": 0, "two-1": 1, "two-0.125": 0.125,
             "two-tied": 0.1}
 NOISES = ["model", "data", "both", "none", "model-prior", "model@2ch",
@@ -178,7 +215,8 @@ def cfg_id(cfg):
 def cfg_sites(cfg):
     """ordered (site, prior kind) list of the configuration"""
     sites = list(KIND_SITES[cfg["kind"]])
-    out = [(s, cfg["priors"][i]) for i, s in enumerate(sites)]
+    pat = cfg["priors"]
+    out = [(s, pat[i % len(pat)]) for i, s in enumerate(sites)]
     if cfg["noise"] in ("model-prior", "dict-prior"):
         out.append(("noise_sd", "U"))
     return out
@@ -255,6 +293,18 @@ def cases(tier, seed):
             out.append({"id": "dictnoise:%s:%s" % (kind, noise),
                         "kind": "cfg", "cfg": cfg, "D": 1, "block": None,
                         "lite": False})
+    # more than ten parameters, theory objects with non-default options,
+    # parameters tied with add_tie (dedicated cases)
+    for kind in EXTRA_KINDS:
+        for noise, optics, pat, data in (
+                ("model", "model", "UUUU", "noisy"),
+                ("data", "data", "UGBU", "subset")):
+            cfg = {"kind": kind, "noise": noise, "optics": optics,
+                   "priors": pat, "data": data}
+            D = 1 if tier == "quick" else 2
+            out.append({"id": "extra:%s:D=%d" % (cfg_id(cfg), D),
+                        "kind": "cfg", "cfg": cfg, "D": D, "block": None,
+                        "lite": False})
     # pixels=k path under every scripted selection
     shapes = [(2, 2)] if tier == "quick" else [(2, 2), (2, 3)]
     for shape in shapes:
@@ -320,6 +370,40 @@ class Ctx:
     pass
 
 
+def _mk_scat(kind, g):
+    """the scatterer of a model kind from g(site, fixed value)"""
+    from holopy.scattering import Sphere, Spheres
+    if kind.startswith("two"):
+        tied = kind == "two-tied"
+        return Spheres([Sphere(n=1.59, r=g("r1", 0.5),
+                               center=(0.0, 0.1, 5.0)),
+                        Sphere(n=1.45, r=g("r1", 0.5) if tied else R2,
+                               center=(g("x2", 1.5), 0.1, 5.0))], warn=False)
+    if kind == "wide":
+        return Spheres([Sphere(n=g("wn1", 1.59), r=g("wr1", 0.5),
+                               center=(g("wx1", 0.0625), g("wy1", 0.1),
+                                       g("wz1", 5.0))),
+                        Sphere(n=g("wn2", 1.45), r=g("wr2", 0.25),
+                               center=(g("wx2", 1.5), g("wy2", 0.15),
+                                       g("wz2", 5.25)))], warn=False)
+    if kind.startswith("tie"):
+        return Spheres([Sphere(n=g("tn%d" % i, 1.59), r=g("tr%d" % (i + 1),
+                                                           0.5),
+                               center=TIE3_CENTERS[i]) for i in range(3)],
+                       warn=False)
+    return Sphere(n=g("n", 1.59), r=g("r", 0.5),
+                  center=(g("x", 0.17), 0.11, g("z", 5.0)))
+
+
+def _mk_theory(kind, lens_angle=None):
+    from holopy.scattering import Mie, MieLens
+    if kind in ("lens", "exact-lens"):
+        return MieLens(lens_angle=lens_angle)
+    if kind in ("norad", "exact-norad"):
+        return Mie(compute_escat_radial=False, full_radial_dependence=False)
+    return Mie()
+
+
 def build(cfg, shape=(4, 4), subset_pixels=7):
     """construct model + data for a configuration.  Returns Ctx."""
     import xarray as xr
@@ -347,21 +431,29 @@ def build(cfg, shape=(4, 4), subset_pixels=7):
     # ---- scatterer / theory with priors -----------------------------------
     c.two = kind.startswith("two")
     c.tied = kind == "two-tied"
-    if c.two:
-        scat = Spheres([Sphere(n=1.59, r=site("r1", 0.5),
-                               center=(0.0, 0.1, 5.0)),
-                        Sphere(n=1.45, r=site("r1", 0.5) if c.tied else R2,
-                               center=(site("x2", 1.5), 0.1, 5.0))],
-                       warn=False)
-        constraints = [LimitOverlaps(FRACTION[kind])]
-    else:
-        scat = Sphere(n=site("n", 1.59), r=site("r", 0.5),
-                      center=(site("x", 0.17), 0.11, site("z", 5.0)))
-        constraints = []
-    if kind in ("lens", "exact-lens"):
-        theory = MieLens(lens_angle=P["lens_angle"])
-    else:
-        theory = Mie()
+    constraints = [LimitOverlaps(FRACTION[kind])] if c.two else []
+    tie_names = None
+    if kind.startswith("tie"):
+        # the index priors of the three spheres are separately defined and
+        # equal; 'tie3' ties all three, 'tie3-rev' names them in reverse
+        # order, 'tie2of3' ties the first and the last only
+        extra_n = [_mk_prior("tn", c.kinds["tn"]).renamed("p_tn_%d" % i)
+                   for i in (1, 2)]
+        npri = [P["tn"]] + extra_n
+        if kind == "tie2of3":
+            npri[1] = 1.59
+            tie_names = ["p_tn", "p_tn_2"]
+        else:
+            tie_names = ["p_tn", "p_tn_1", "p_tn_2"]
+        if kind == "tie3-rev":
+            tie_names = tie_names[::-1]
+
+        def site(s, fixed):
+            if s.startswith("tn"):
+                return npri[int(s[2:])]
+            return P[s] if s in P else fixed
+    scat = _mk_scat(kind, site)
+    theory = _mk_theory(kind, P.get("lens_angle"))
     # ---- optics -------------------------------------------------------------
     mopt = {}
     if optics in ("model", "both"):
@@ -425,6 +517,8 @@ def build(cfg, shape=(4, 4), subset_pixels=7):
                 c.counter.n += 1
                 return orig(*a, **kw)
             M.calc_holo = counting_holo
+    if tie_names:
+        c.model.add_tie(tie_names, new_name="p_tn")
     # ---- data ---------------------------------------------------------------------
     truth = _truth_holo(shape, c.nch)
     vals = truth.values.copy()
@@ -479,20 +573,16 @@ def pars_of(c, vals):
 
 def harness_forward(c, vals, detector):
     """the public hologram calculation on objects built from plain numbers"""
-    from holopy.scattering import Sphere, Spheres, Mie, MieLens
-    g = lambda s, fixed: vals[s] if s in vals else fixed
-    if c.two:
-        scat = Spheres([Sphere(n=1.59, r=g("r1", 0.5),
-                               center=(0.0, 0.1, 5.0)),
-                        Sphere(n=1.45, r=g("r1", 0.5) if c.tied else R2,
-                               center=(g("x2", 1.5), 0.1, 5.0))], warn=False)
-    else:
-        scat = Sphere(n=g("n", 1.59), r=g("r", 0.5),
-                      center=(g("x", 0.17), 0.11, g("z", 5.0)))
-    if c.cfg["kind"] in ("lens", "exact-lens"):
-        theory = MieLens(lens_angle=vals["lens_angle"])
-    else:
-        theory = Mie()
+    kind = c.cfg["kind"]
+
+    def g(s, fixed):
+        if kind.startswith("tie") and s.startswith("tn"):
+            if kind == "tie2of3" and s == "tn1":
+                return 1.59
+            return vals["tn"]
+        return vals[s] if s in vals else fixed
+    scat = _mk_scat(kind, g)
+    theory = _mk_theory(kind, vals.get("lens_angle"))
     opt = dict(c.optics_true)
     if "medium_index" in vals:
         opt["medium_index"] = vals["medium_index"]
@@ -535,7 +625,7 @@ def support_and_density(c, vals):
 
 
 def scatterer_valid(c, vals):
-    for s in ("r", "r1"):
+    for s in RADIUS_SITES:
         if s in vals and vals[s] < 0:
             return False
     return True
